@@ -29,7 +29,7 @@ MANIFEST = {
                  "equality on the universe (reflexive, separating), enumerates the well-typed <<type, value>> pairs and judges "
                  "every recorded to_json/from_json round trip of the real type classes (call/return conformance, B3)",
     "text": "Bounded exploration of an input-quantified property: all types of the stated grammar to depth 2 (exhaustive core + "
-            "seeded sample of the full grammar; thorough tier: nine named depth-3 types), locus<rg> of a registered genome as a "
+            "seeded sample of the full grammar; thorough tier: named and seeded depth-3 types), locus<rg> of a registered genome as a "
             "leaf type, per type a pool of boundary values with a missing value at every nullable "
             "position; leaves are symbolic names concretised by a table in checks/_typedvalues.py. The specification "
             "contributes the universe, the typing relation and the equality (no transition system): labelled exploration.",
@@ -84,7 +84,7 @@ def run(ctx):
 
     # ---- (2)-(4) Gen, the real code, Verdict -----------------------------------------------------------------
     cases, verdict, stats = tv.roundtrip_check(ctx, wd, wire="json", convert=_convert, level=level, with_nd=True,
-                                               nextra=25 if ctx.quick else 200)
+                                               nextra=25 if ctx.quick else 400)
     out = selfcheck.result()
     pool.shutdown()
     if '"selfcheck"' not in out:
@@ -123,9 +123,9 @@ def run(ctx):
                    rule=f"TLC enumerates Opt(Vals(t, 2)) for every type t of CoreTypes (level {level}: primitives, all one-level "
                         f"constructions, one construction of every kind around the selected depth-1 types, two 9-field "
                         f"tuple/struct types, n-d arrays of the 5 numeric element types with ndim 0-3, 8 named depth-2 combinations "
-                        f"with loci / struct and tuple dict keys / sets of arrays{'' if ctx.quick else ', 9 named depth-3 types'}; "
+                        f"with loci / struct and tuple dict keys / sets of arrays{'' if ctx.quick else ', 9 named depth-3 types and one construction of every kind around each named depth-2 combination'}; "
                         f"locus<vrg> is a leaf type) plus {stats['extra_types']} "
-                        f"types drawn with seed {ctx.seed} from the whole depth-2 grammar; each pair is one _to_json/_from_json round "
+                        f"types drawn with seed {ctx.seed} from the whole depth-2 grammar{'' if ctx.quick else ' (every second one from the depth-3 grammar)'}; each pair is one _to_json/_from_json round "
                         "trip of the real classes judged by TLC (Match); non-trivial = distinct non-primitive types exercised")
     ctx.cov["universe"] = stats
     ctx.cov["spec_selfcheck"] = "TypedValuesSelf: pools well typed; Match reflexive on all pools; separating on Vals(t,1)"
